@@ -432,6 +432,7 @@ class Generator:
                       tags=(c.tags if c else []), bounded=(c.bounded if c else None), has_contract=bool(c))
         info.bodytags = dict(c.bodytags) if c else {}
         info.canary = (addr in self.canary_fns)
+        info.src_sha = hashlib.sha256(re.sub(r'\s+', ' ', txt).encode()).hexdigest()[:16]
         pre = '\n' + ''.join(a + '\n' for a in attrs)
         if c:
             pre += ''.join(a + '\n' for a in c.attrs)
